@@ -167,7 +167,19 @@ def getitem(engine, st, fr, o, idx, node):
             yield r
         return
     if isinstance(o, ArgPack):
-        raise Unsupported("index into *args pack")
+        k = _index(engine, st, idx)
+        if k is None:
+            raise Unsupported("non-int index into *args pack")
+        from .b_names import pk_len, pk_nth
+        n = pk_len(o.t)
+        st.assume(n >= 0)
+        kk = z3.If(k < 0, k + n, k)
+        for st1, ok in engine.branch(st, z3.And(kk >= 0, kk < n), "index in range of *args"):
+            if not ok:
+                yield st1, _Raise(engine.new_exc(st1, "IndexError"))
+            else:
+                yield st1, Z(pk_nth(o.t, z3.simplify(kk)), "any")
+        return
     from .b_ops import opaque_operator
     for r in opaque_operator(engine, st, fr, "getitem", [o, idx], node):
         yield r
